@@ -71,6 +71,9 @@ type c13Result struct {
 func c13Run(c c13Case) Outcome {
 	var o Outcome
 	res := inBubble(theT, func() { o = c13RunInBubble(c) })
+	if o, stuck := stuckVerdict(res); stuck {
+		return o
+	}
 	if res.Panic != "" {
 		return viol("panic@"+topFrame(res.Stack), "%s\n%s", res.Panic, res.Stack)
 	}
